@@ -29,7 +29,10 @@ LOSSY = {("dataframe", "csv"), ("dataframe", "tsv"), ("dataframe", "json"), ("da
 def shards(tier, seed):
     m = 16 if tier == "quick" else 48
     n = 2500 if tier == "quick" else 12000
-    return [{"part": k, "n": n} for k in range(m)]
+    out = [{"part": k, "n": n} for k in range(m)]
+    if tier == "thorough":
+        out.append({"kind": "under_tests", "part": 0, "n": 0})
+    return out
 
 
 # ---------------------------------------------------------------------------------
@@ -291,6 +294,28 @@ def run_shard(spec):
     from lqv.mon.contracts import Monitor, ContractRefuted
     from lqv import refinterp as R, vocab
 
+    if spec.get("kind") == "under_tests":
+        from lqv import undertests
+
+        r = undertests.run("C11", spec["scratch"])
+        if r is None:
+            return {"evaluations": 0, "inconclusive": ["test-suite run with contracts did not finish"]}
+        known_types = {"bytes", "text", "generic", "dictionary", "pickle", "dataframe"}
+        v = []
+        for x in r["records"]:
+            w = x["witness"] or {}
+            if x["contract"].startswith("encode") and (w.get("tid") not in known_types or (w.get("tid"), w.get("ext")) in LOSSY):
+                continue   # state types of optional extensions / documented lossy renderings: outside the quantifier
+            if " object at 0x" in str(w.get("value", "")):
+                continue   # instances of classes without structural equality cannot be compared
+            if x["contract"].startswith("copy") and "object cells" in str(w.get("why")):
+                continue
+            if x["contract"].startswith("copy") and not any(t in str(w.get("value", ""))[:3] for t in ("DF", "{", "[", "'", "b'")):
+                continue
+            v.append({"sig": "C11|under the repository's tests|%s|%s" % (x["contract"], w.get("why")),
+                      "what": "contract refuted while the repository's own tests ran: %r" % (w,), "witness": {"tid": "text", "ext": None, "vseed": 0}})
+        n = sum(r["counts"].values())
+        return {"evaluations": n, "violations": v[:5], "counters": {"contract_evals_under_repo_tests": n}}
     vocab.table()  # imports liquer.ext.lq_pandas: registers the data-frame state type
     features = set()
     mon = Monitor("raise")
